@@ -13,6 +13,7 @@
    all modulo Q = Π q_i, coefficient-wise. -/
 import Heathcliff.Proofs.C02P
 import Heathcliff.Proofs.C03K
+import Heathcliff.Model.Program
 namespace HC
 open Finset
 
@@ -199,13 +200,6 @@ theorem c02p_negate_ph {l : Level} (h : c02p_LevelOK l) {sk : Array Int} (hsk : 
   simpa using this
 
 /-! ## add / sub with correction-factor balancing, all size pairs -/
-
-/-- the multipliers of `translate_inplace`: (new factor, e1, e2) — (f, 1, 1) for equal factors, else `balance_correction_factors` -/
-def c02p_balance (t : Modulus) (f1 f2 : Nat) : Option (Nat × Nat × Nat) :=
-  if f1 = f2 then some (f1, 1, 1) else
-    match balanceCorrectionFactors f1 f2 t with
-    | .ok r => some r
-    | .error _ => none
 
 theorem c02p_translate_ph {l : Level} (h : c02p_LevelOK l) {sk : Array Int} (hsk : sk.size = l.n) {a b r : Ct} (ha : c02p_Good l a)
     (hb : c02p_Good l b) (sub : Bool) (hr : ctTranslateBalanced l a b sub = .ok r) :
